@@ -35,6 +35,7 @@ from pycdlib import isohybrid
 from pycdlib import path_table_record
 from pycdlib import pycdlibexception
 from pycdlib import pycdlibio
+from pycdlib import rockridge
 from pycdlib import udf as udfmod
 from pycdlib import utils
 
@@ -1937,6 +1938,107 @@ class PyCdlib:
 
         return b''
 
+    def _check_new_dr_child(self, parent, name, rr_name, rock_ridge, xa):
+        # type: (dr.DirectoryRecord, bytes, bytes, bool, bool) -> None
+        """
+        An internal method to check that a Directory Record with the given
+        identifier could be added to the given parent, without changing
+        anything.
+
+        Parameters:
+         parent - The Directory Record that would be the parent.
+         name - The identifier of the new record.
+         rr_name - The Rock Ridge name of the new record.
+         rock_ridge - Whether the new record carries Rock Ridge entries.
+         xa - Whether the new record carries an XA record.
+        Returns:
+         Nothing.
+        """
+        if not parent.is_dir():
+            raise pycdlibexception.PyCdlibInvalidInput('Trying to add a child to a record that is not a directory')
+
+        dr_len = struct.calcsize(dr.DirectoryRecord.FMT) + len(name)
+        if xa:
+            dr_len += dr.XARecord.length()
+        dr_len += (dr_len % 2)
+        if dr_len > 254:
+            raise pycdlibexception.PyCdlibInvalidInput('Identifier is too long to fit into a directory record')
+        if rock_ridge and dr_len + rockridge.RRCERecord.length() > rockridge.ALLOWED_DR_SIZE:
+            raise pycdlibexception.PyCdlibInvalidInput('Identifier is too long to fit into a Rock Ridge directory record')
+
+        if parent.rock_ridge is not None and parent.file_identifier() == b'RR_MOVED':
+            return
+
+        for child in parent.children:
+            if child.file_ident == name and not child.is_associated_file():
+                raise pycdlibexception.PyCdlibInvalidInput('Failed adding duplicate name to parent')
+
+        if rock_ridge:
+            for child in parent.rr_children:
+                if child.rock_ridge is not None and child.rock_ridge.name() == rr_name:
+                    raise pycdlibexception.PyCdlibInvalidInput('Failed adding duplicate Rock Ridge name to parent')
+
+    def _check_new_paths(self, iso_path, rr_name, joliet_path, udf_path, isdir,
+                         check_ident=True):
+        # type: (Optional[str], Optional[str], Optional[str], Optional[str], bool, bool) -> None
+        """
+        An internal method to check that a new entry can be added under every
+        one of the given paths.  The methods that add an entry to more than one
+        context call this before they change anything, so that a call that is
+        refused because of one of the paths leaves the other contexts untouched.
+
+        Parameters:
+         iso_path - The ISO9660 absolute path of the new entry, if any.
+         rr_name - The Rock Ridge name of the new entry, if any.
+         joliet_path - The Joliet absolute path of the new entry, if any.
+         udf_path - The UDF absolute path of the new entry, if any.
+         isdir - Whether the new entry is a directory.
+         check_ident - Whether the ISO9660 identifier has to be a legal one.
+        Returns:
+         Nothing.
+        """
+        if iso_path:
+            iso_path_bytes = utils.normpath(iso_path)
+            if rr_name is None and not isdir:
+                if self.rock_ridge:
+                    raise pycdlibexception.PyCdlibInvalidInput('Rock Ridge name must be supplied for a Rock Ridge new path')
+                new_rr_name = b''
+            else:
+                new_rr_name = self._check_rr_name(rr_name)
+            if isdir:
+                if not self.rock_ridge and self.enhanced_vd is None:
+                    _check_path_depth(iso_path_bytes)
+            elif not self.rock_ridge and self.interchange_level < 4:
+                _check_path_depth(iso_path_bytes)
+            (name, parent) = self._iso_name_and_parent_from_path(iso_path_bytes)
+            if not check_ident:
+                pass
+            elif isdir:
+                _check_iso9660_directory(name, self.interchange_level)
+            else:
+                _check_iso9660_filename(name, self.interchange_level)
+            self._check_new_dr_child(parent, name, new_rr_name,
+                                     bool(self.rock_ridge), self.xa)
+
+        if joliet_path:
+            if self.joliet_vd is None:
+                raise pycdlibexception.PyCdlibInvalidInput('A Joliet path can only be specified for a Joliet ISO')
+            joliet_path_bytes = self._normalize_joliet_path(joliet_path)
+            (name, parent) = self._joliet_name_and_parent_from_path(joliet_path_bytes)
+            self._check_new_dr_child(parent, name, b'', False, False)
+
+        if udf_path:
+            if self.udf_root is None:
+                raise pycdlibexception.PyCdlibInvalidInput('Can only specify a UDF path for a UDF ISO')
+            (udf_name, udf_parent) = self._udf_name_and_parent_from_path(utils.normpath(udf_path))
+            if not udf_parent.is_dir():
+                raise pycdlibexception.PyCdlibInvalidInput('Can only add a UDF File Identifier to a directory')
+            probe = udfmod.UDFFileIdentifierDescriptor()
+            probe.new(isdir, False, udf_name, udf_parent)
+            for fi_desc in udf_parent.fi_descs:
+                if not fi_desc.is_parent() and fi_desc.fi == probe.fi and fi_desc.encoding == probe.encoding:
+                    raise pycdlibexception.PyCdlibInvalidInput('Failed adding duplicate name to parent')
+
     def _normalize_joliet_path(self, joliet_path):
         # type: (str) -> bytes
         """
@@ -3284,6 +3386,9 @@ class PyCdlib:
 
         if iso_path is None and joliet_path is None and udf_path is None:
             raise pycdlibexception.PyCdlibInvalidInput("At least one of 'iso_path', 'joliet_path', or 'udf_path' must be provided")
+
+        # Make sure every one of the paths can be added before adding any.
+        self._check_new_paths(iso_path, rr_name, joliet_path, udf_path, False)
 
         fmode = 0
         if file_mode is not None:
@@ -4827,6 +4932,9 @@ class PyCdlib:
         if file_mode is None:
             file_mode = 0o040555
 
+        # Make sure every one of the paths can be added before adding any.
+        self._check_new_paths(iso_path, rr_name, joliet_path, udf_path, True)
+
         num_bytes_to_add = 0
         if iso_path is not None:
             iso_path_bytes = utils.normpath(iso_path)
@@ -5430,6 +5538,11 @@ class PyCdlib:
         if joliet_path is not None and self.joliet_vd is None:
             # Rule 9
             raise pycdlibexception.PyCdlibInvalidInput('A Joliet path can only be specified for a Joliet ISO')
+
+        # Make sure every one of the paths can be added before adding any.
+        self._check_new_paths(symlink_path, rr_symlink_name or '', joliet_path,
+                              udf_symlink_path, False,
+                              rr_symlink_name is None)
 
         # Checks complete, we can go on to make the symlink.
 
